@@ -118,6 +118,11 @@ class SeqMixin:
             py_raise('IndexError', 'index out of range')
         if isinstance(idx, int):
             return idx if idx >= 0 else concretize(zn + idx)
+        # keep index terms free of if-then-else when the sign is known (matchable by E-matching)
+        if self.valid(zi >= 0):
+            return idx
+        if self.valid(zi < 0):
+            return concretize(zi + zn)
         return concretize(z3.If(zi < 0, zi + zn, zi))
 
     def eq_term(self, a, b):
@@ -143,6 +148,10 @@ class SeqMixin:
         return inner.n if isinstance(inner, SList) else len(inner)
 
     def cell_read(self, parent, i, j, cellwrites=None):
+        if self.read_log is not None and getattr(parent, 'track', False):
+            # guard: what is assumed at the moment of the read beyond the facts at body start
+            guard = list(self.pc[self.read_base:])
+            self.read_log.append((parent, i, j, guard))
         inner = parent.elem(i)
         if isinstance(inner, SList):
             r = self.slist_read(inner, j)
